@@ -25,25 +25,25 @@ Long == IF LongScripts
 HdrOf(f) == f \in {"xml", "pbf"}
 TrlOf(f) == f = "xml"
 
-Faults(comp, pool) ==
+Faults(comp, pool, f) ==
    {NoFault}
    \cup (IF "write" \in FaultKinds THEN {[k |-> "write", at |-> o] : o \in 0..MaxAt} ELSE {})
    \cup (IF "fsync" \in FaultKinds THEN {[k |-> "fsync", at |-> 0]} ELSE {})
    \cup (IF "close" \in FaultKinds THEN {[k |-> "close", at |-> n] : n \in 1..(IF comp = "gzip" THEN 2 ELSE 1)} ELSE {})
    \cup (IF "cwrite" \in FaultKinds /\ comp = "plain" THEN {[k |-> "cwrite", at |-> n] : n \in 1..3} ELSE {})
    \cup (IF "cclose" \in FaultKinds /\ comp = "plain" THEN {[k |-> "cclose", at |-> 0]} ELSE {})
-   \cup (IF "epool" \in FaultKinds /\ pool THEN {[k |-> "epool", at |-> n] : n \in 1..2} ELSE {})
+   \cup (IF "epool" \in FaultKinds /\ pool /\ f # "pbf" THEN {[k |-> "epool", at |-> n] : n \in 1..2} ELSE {})
    \cup (IF "ehdr" \in FaultKinds THEN {[k |-> "ehdr", at |-> 0]} ELSE {})
-   \cup (IF "ebuf" \in FaultKinds THEN {[k |-> "ebuf", at |-> n] : n \in 1..2} ELSE {})
+   \cup (IF "ebuf" \in FaultKinds /\ f # "pbf" THEN {[k |-> "ebuf", at |-> n] : n \in 1..2} ELSE {})
    \cup (IF "eend" \in FaultKinds THEN {[k |-> "eend", at |-> 0]} ELSE {})
 
 Mk(s, f, comp, sync, fl, pool, b, cap) ==
    [script |-> s, hdr |-> HdrOf(f), trl |-> TrlOf(f), comp |-> comp, fsync |-> sync, fault |-> fl, pool |-> pool,
-    maxQ |-> b, cap |-> cap, fdfix |-> FdFix]
+    maxQ |-> b, cap |-> cap, fdfix |-> FdFix, defer |-> (f = "pbf")]
 
 TheConfigs ==
   UNION {
-   {Mk(s, f, comp, (fl.k = "fsync"), fl, pool, b, cap) : s \in ShortScripts \cup Long, fl \in Faults(comp, pool)}
+   {Mk(s, f, comp, (fl.k = "fsync"), fl, pool, b, cap) : s \in ShortScripts \cup Long, fl \in Faults(comp, pool, f)}
    : f \in Formats, comp \in Comps, pool \in Pools, b \in Bounds, cap \in Caps}
 
 AllKinds == {"write", "fsync", "close", "cwrite", "cclose", "epool", "ehdr", "ebuf", "eend"}
@@ -61,7 +61,7 @@ GenWriteFaults(c0) == LET t == Total(c0) IN
 (* real formats and compressors: the kernel refuses a write, fsync or close; an unencodable object on a pool worker *)
 GenRealFaults(c0) == {NoFault} \cup GenWriteFaults(c0) \cup {[k |-> "fsync", at |-> 0]}
                      \cup {[k |-> "close", at |-> n] : n \in 1..(IF c0.comp = "gzip" THEN 2 ELSE 1)}
-                     \cup {[k |-> "epool", at |-> n] : n \in 1..2}
+                     \cup (IF c0.defer THEN {} ELSE {[k |-> "epool", at |-> n] : n \in 1..2})
 (* mock encoder / mock compressor through the factory seams *)
 GenMockFaults == {[k |-> "cwrite", at |-> n] : n \in 1..3} \cup {[k |-> "cclose", at |-> 0]}
                  \cup {[k |-> "ehdr", at |-> 0], [k |-> "eend", at |-> 0]} \cup {[k |-> "ebuf", at |-> n] : n \in 1..2}
@@ -81,7 +81,7 @@ InitOnly == Init /\ [][FALSE]_vars
 (* behaviour export: one line per configuration with the allowed logs, the content of a complete file and the
    size of the would-be output in units (evaluated in the initial states) *)
 ExportCfg == (us.pc = "idle" /\ us.i = 1 /\ clog = <<>> /\ wt.pc = "loop" /\ futs = <<>>)
-             => PrintT(<<"CASE", ToJson([cfg |-> cfg, allowed |-> allowed, content |-> Content(cfg), total |-> Total(cfg)])>>)
+             => PrintT(<<"CASE", ToJson([cfg |-> cfg, allowed |-> allowed, content |-> Content(cfg), total |-> Total(cfg), blocks |-> Blocks(cfg)])>>)
 (* tightness of the A-layer (development aid and vacuity guard): every terminal state prints its log *)
 ExportTerminal == AllDone => PrintT(<<"CASE", ToJson([cfg |-> cfg, allowed |-> allowed, log |-> clog])>>)
 =============================================================================
